@@ -11,6 +11,11 @@ type curveEntryRunC07 struct {
 	run  func(r *vlib.Run, g string)
 }
 
+type teEntryRunC07 struct {
+	name string
+	run  func(r *vlib.Run, g string)
+}
+
 type curveEntryRunC07S struct {
 	name string
 	run  func(r *vlib.Run, g string)
@@ -26,6 +31,13 @@ func main() {
 		c := c
 		names = append(names, c.name)
 		bodies[c.name] = func() { c.run(r, c.name) }
+	}
+	if r.Shard() == "" {
+		for _, t := range tesRunC07 {
+			t := t
+			names = append(names, t.name)
+			bodies[t.name] = func() { t.run(r, t.name) }
+		}
 	}
 	// the stream groups run in worker processes under a hard address-space limit: a decoder that
 	// loses its position in the stream allocates whatever a garbage length prefix announces
